@@ -306,6 +306,12 @@ func (e *Engine) valuesEqual(st *State, a, b Value) (*Term, bool) {
 			return nil, false
 		}
 		return e.tt.Bool(x.F == y.F), true
+	case SymF:
+		y, ok := b.(SymF)
+		if !ok {
+			return nil, false
+		}
+		return e.symFloatEq(x, y)
 	case Str:
 		y, ok := b.(Str)
 		if !ok {
@@ -440,6 +446,12 @@ func (e *Engine) binop(st *State, op token.Token, x, y Value, xt, yt types.Type,
 			if !e.boundsCheck(st, nz, "integer divide by zero", ins) {
 				return nil, false
 			}
+			if q, r, ok := e.divElim(a, b, signed); ok {
+				if op == token.QUO {
+					return q, true
+				}
+				return r, true
+			}
 			if op == token.QUO {
 				if signed {
 					return e.tt.SDiv(a, b), true
@@ -567,7 +579,7 @@ func (e *Engine) convert(st *State, f *Frame, ins *ssa.Convert) bool {
 	case fint && isFloat(to):
 		t := x.(*Term)
 		if !t.IsConst() {
-			e.setReg(f, ins, Poison{"symbolic int to float"})
+			e.setReg(f, ins, SymF{"int", e.tt.Resize(t, 64, fsigned)})
 			return true
 		}
 		if fsigned {
@@ -576,6 +588,18 @@ func (e *Engine) convert(st *State, f *Frame, ins *ssa.Convert) bool {
 			e.setReg(f, ins, Float{float64(t.Val)})
 		}
 	case isFloat(from) && tint:
+		if sf, ok := x.(SymF); ok {
+			v, ok := e.symFloatToInt(st, sf, tw, ins)
+			if !ok {
+				return false
+			}
+			e.setReg(f, ins, v)
+			return true
+		}
+		if _, ok := x.(Float); !ok {
+			e.setReg(f, ins, Poison{"float to int of " + describe(x)})
+			return true
+		}
 		fl := x.(Float).F
 		if tsigned {
 			e.setReg(f, ins, e.tt.Const(tw, uint64(int64(fl))))
@@ -583,6 +607,10 @@ func (e *Engine) convert(st *State, f *Frame, ins *ssa.Convert) bool {
 			e.setReg(f, ins, e.tt.Const(tw, uint64(fl)))
 		}
 	case isFloat(from) && isFloat(to):
+		if _, ok := x.(Float); !ok {
+			e.setReg(f, ins, x)
+			return true
+		}
 		fl := x.(Float).F
 		if to.Underlying().(*types.Basic).Kind() == types.Float32 {
 			fl = float64(float32(fl))
@@ -995,3 +1023,78 @@ func (e *Engine) mkErr(msg string, wrapped Value) Value {
 
 var _ = math.MaxInt
 var _ = utf8.RuneError
+
+// divElim replaces a / d and a % d for a constant divisor d that is not a power of two by
+// fresh variables q, r with the (global, definitional) constraint a = q*d + r, r < d, q <= max/d.
+// Division circuits by such constants are what stalls the bit-blasting solvers; the
+// multiplication form is decided quickly. Exact: q and r are uniquely determined.
+func (e *Engine) divElim(a, b *Term, signed bool) (*Term, *Term, bool) {
+	if !b.IsConst() || a.IsConst() || a.W < 16 {
+		return nil, nil, false
+	}
+	d := b.Val
+	if d == 0 || d&(d-1) == 0 {
+		return nil, nil, false
+	}
+	if signed {
+		// only for provably non-negative dividends and positive divisors
+		half := mask(a.W) >> 1
+		if a.Hi > half || d > half {
+			return nil, nil, false
+		}
+	}
+	key := [3]uint64{uint64(a.ID), d, uint64(a.W)}
+	if e.divDefs == nil {
+		e.divDefs = map[[3]uint64][2]*Term{}
+		e.defOf = map[*Term]*Term{}
+	}
+	if qr, ok := e.divDefs[key]; ok {
+		return qr[0], qr[1], true
+	}
+	q := e.tt.FreshVar("div.q", a.W)
+	r := e.tt.FreshVar("div.r", a.W)
+	maxq := mask(a.W) / d
+	if signed {
+		maxq = (mask(a.W) >> 1) / d
+	}
+	c := e.tt.BAnd(
+		e.tt.Eq(a, e.tt.Add(e.tt.Mul(q, b), r)),
+		e.tt.ULt(r, b),
+		e.tt.ULe(q, e.tt.Const(a.W, maxq)),
+	)
+	e.defOf[q] = c
+	e.defOf[r] = c
+	e.divDefs[key] = [2]*Term{q, r}
+	e.Models["division/remainder by a constant that is not a power of two: quotient and remainder variables defined by a = q*d + r (exact)"] = true
+	return q, r, true
+}
+
+// withDefs adds the definitional constraints of every defined variable occurring in as.
+func (e *Engine) withDefs(as []*Term) []*Term {
+	if len(e.defOf) == 0 {
+		return as
+	}
+	seen := map[int]bool{}
+	added := map[*Term]bool{}
+	var stack []*Term
+	stack = append(stack, as...)
+	out := as
+	for len(stack) > 0 {
+		t := stack[len(stack)-1]
+		stack = stack[:len(stack)-1]
+		if seen[t.ID] {
+			continue
+		}
+		seen[t.ID] = true
+		if t.Op == OpVar {
+			if c, ok := e.defOf[t]; ok && !added[c] {
+				added[c] = true
+				out = append(out, c)
+				stack = append(stack, c)
+			}
+			continue
+		}
+		stack = append(stack, t.Args...)
+	}
+	return out
+}
